@@ -1325,6 +1325,7 @@ func (pc *pipelinedConn) closeWithErr(err error) {
 
 		for i := range pc.pending {
 			if slot := pc.pending[i].Swap(nil); slot != nil {
+				verifYield("dnspipe.close.afterSwap", pc, slot)
 				slot.set(nil)
 			}
 		}
@@ -1369,6 +1370,7 @@ func (pc *pipelinedConn) readLoop() {
 			if slot == nil {
 				continue
 			}
+			verifYield("dnspipe.readLoop.afterSwap", pc, slot)
 			slot.set(respMsg)
 		}
 	}
